@@ -67,12 +67,13 @@ T == ("short"  :> Ty("int", "int", 2, 1, 16, "", 0)) @@
      ("mvd"    :> Ty("buf", "", 0, 0, 0, "f8", 1)) @@
      ("mvd2"   :> Ty("buf", "", 0, 0, 0, "f8", 2))
 
-UScalar == {"short", "int", "long", "uint", "ulong", "bint", "float", "double", "fc", "dc", "object", "list"}
+UScalar == {"short", "int", "long", "llong", "uint", "ulong", "bint", "float", "double", "fc", "dc", "object", "list"}
 UAll    == UScalar \cup {"mvi", "mvl", "mvf", "mvd", "mvd2"}
 UQuick  == {"short", "int", "long", "ulong", "bint", "float", "double", "dc", "object", "list", "mvi", "mvd", "mvd2"}
-UMulti  == {"int", "long", "uint", "bint", "double", "object", "mvd"}
+UMulti  == {"int", "long", "bint", "double", "object", "mvd"}
 UMultiQ == {"int", "double", "object", "mvd"}
-UNum    == {"short", "int", "long", "uint", "ulong", "bint", "float", "double", "fc", "dc", "object"}
+UNum    == {"short", "int", "long", "llong", "uint", "ulong", "bint", "float", "double", "fc", "dc", "object"}
+UNumQ   == UNum \ {"uint"}
 UNone   == {}
 
 (* argument kinds: cls Python class, neg/bits magnitude of an int, src/dt/nd *)
@@ -314,8 +315,8 @@ ImplCall(dd, aa, g) ==
 AltFlags == {FAll(FALSE), FAll(TRUE), [FAll(FALSE) EXCEPT !["int"] = TRUE], [FAll(FALSE) EXCEPT !["float"] = TRUE],
              [FAll(TRUE) EXCEPT !["int"] = FALSE], [FAll(TRUE) EXCEPT !["float"] = FALSE]}
 
-VARIABLES id, d, op, key, args, fl, pc, dest, fn, out
-vars == <<id, d, op, key, args, fl, pc, dest, fn, out>>
+VARIABLES id, d, op, key, args, fl, pc, dest, fn, out, path
+vars == <<id, d, op, key, args, fl, pc, dest, fn, out, path>>
 
 \* declarations without memoryview members see one buffer exporter and bytes only
 ArgsFor(F) == IF HasBuf(F) THEN ArgsOne ELSE ArgsOne \cap (AScalar \cup {"ndf8", "bytes"})
@@ -337,50 +338,60 @@ InitCase(i, dd) ==
   /\ fl \in FlagChoices(dd)
   /\ \/ /\ op = "call" /\ key = <<>> /\ args \in ArgTuples(dd) /\ pc = "map"
      \/ /\ Part \in {"multi", "replay"} /\ op = "index" /\ key \in KeysOf(dd) /\ args \in IdxArgTuples(dd) /\ pc = "idx"
-  /\ dest = <<>> /\ fn = <<>> /\ out = AnyO
+  /\ dest = <<>> /\ fn = <<>> /\ out = AnyO /\ path = <<>>
 
 Init == CASE Part = "replay" -> \E i \in DOMAIN ReplayDecls : InitCase(i, Decl(ReplayDecls[i].mode, ReplayDecls[i].f1, ReplayDecls[i].f2))
           [] Part = "split" -> /\ \E dd \in SweepDecls : id = 0 /\ d = dd
                                /\ op = "split" /\ key = <<>> /\ args = <<>> /\ fl = MeasuredFlags /\ pc = "done"
-                               /\ dest = <<>> /\ fn = <<>> /\ out = AnyO
+                               /\ dest = <<>> /\ fn = <<>> /\ out = AnyO /\ path = <<>>
           [] OTHER -> \E dd \in SweepDecls : InitCase(0, dd)
 
 (* the steps of __pyx_fused_cpdef *)
 MapArg == /\ pc = "map" /\ Len(dest) < NF(d)
           /\ dest' = Append(dest, ImplMap(Fu(d, Len(dest) + 1), ArgOf(d, args, Len(dest) + 1), fl))
+          /\ path' = Append(path, "MapArg")
           /\ UNCHANGED <<id, d, op, key, args, fl, pc, fn, out>>
 \* match_signatures_single: signatures.get(dest_type)
 MatchSingle == /\ pc = "map" /\ NF(d) = 1 /\ Len(dest) = 1 /\ dest[1] # "None"
                /\ fn' = <<dest[1]>> /\ pc' = "conv"
+               /\ path' = Append(path, "MatchSingle")
                /\ UNCHANGED <<id, d, op, key, args, fl, dest, out>>
 NoMatchSingle == /\ pc = "map" /\ NF(d) = 1 /\ Len(dest) = 1 /\ dest[1] = "None"
                  /\ out' = Exc("TypeError") /\ pc' = "done"
+                 /\ path' = Append(path, "NoMatchSingle")
                  /\ UNCHANGED <<id, d, op, key, args, fl, dest, fn>>
 \* index_signature: None is a wildcard
 Matches == {s \in Sigs(d) : \A i \in 1..2 : dest[i] = "None" \/ dest[i] = s[i]}
 MatchMulti == /\ pc = "map" /\ NF(d) = 2 /\ Len(dest) = 2 /\ Cardinality(Matches) = 1
               /\ fn' = CHOOSE s \in Matches : TRUE
               /\ pc' = "conv"
+              /\ path' = Append(path, "MatchMulti")
               /\ UNCHANGED <<id, d, op, key, args, fl, dest, out>>
 NoMatchMulti == /\ pc = "map" /\ NF(d) = 2 /\ Len(dest) = 2 /\ Matches = {}
                 /\ out' = Exc("TypeError") /\ pc' = "done"
+                /\ path' = Append(path, "NoMatchMulti")
                 /\ UNCHANGED <<id, d, op, key, args, fl, dest, fn>>
 Ambiguous == /\ pc = "map" /\ NF(d) = 2 /\ Len(dest) = 2 /\ Cardinality(Matches) > 1
              /\ out' = Exc("TypeError") /\ pc' = "done"
+             /\ path' = Append(path, "Ambiguous")
              /\ UNCHANGED <<id, d, op, key, args, fl, dest, fn>>
 \* __pyx_FusedFunction_getitem: "|".join(names) looked up in __signatures__
 IndexHit == /\ pc = "idx" /\ key \in Sigs(d)
             /\ fn' = key /\ pc' = "conv"
+            /\ path' = Append(path, "IndexHit")
             /\ UNCHANGED <<id, d, op, key, args, fl, dest, out>>
 IndexMiss == /\ pc = "idx" /\ key \notin Sigs(d)
              /\ out' = Exc("KeyError") /\ pc' = "done"
+             /\ path' = Append(path, "IndexMiss")
              /\ UNCHANGED <<id, d, op, key, args, fl, dest, fn>>
 \* the specialisation converts its arguments and runs the body
 Convert == /\ pc = "conv" /\ ConvOut(fn, Par(d), args).k # "exc"
            /\ out' = ConvOut(fn, Par(d), args) /\ pc' = "done"
+           /\ path' = Append(path, "Convert")
            /\ UNCHANGED <<id, d, op, key, args, fl, dest, fn>>
 ConvertRaise == /\ pc = "conv" /\ ConvOut(fn, Par(d), args).k = "exc"
                 /\ out' = ConvOut(fn, Par(d), args) /\ pc' = "done"
+                /\ path' = Append(path, "ConvertRaise")
                 /\ UNCHANGED <<id, d, op, key, args, fl, dest, fn>>
 
 Next == \/ MapArg \/ MatchSingle \/ NoMatchSingle \/ MatchMulti \/ NoMatchMulti \/ Ambiguous
@@ -406,6 +417,9 @@ RefConvOK == op = "call" /\ d.mode = "one" /\ dest = <<>> /\ pc = "map" =>
 ImplAgrees == pc = "done" /\ op # "split" => (Agrees \/ HzNow # {})
 (* strict variant: expected to be VIOLATED (the hazard classes are inhabited) *)
 ImplAgreesStrict == pc = "done" /\ op # "split" => Agrees
+(* the mapper only answers member names or None: "No matching signature found" of   *)
+(* index_signature is unreachable with two fused types (a None always matches)       *)
+NoMatchMultiDead == ~(pc = "map" /\ NF(d) = 2 /\ Len(dest) = 2 /\ Matches = {})
 StepsAreImplCall == pc = "done" /\ op = "call" => out = ImplCall(d, args, fl)
 (* the sort puts every member somewhere and Split loses none *)
 SplitSound == LET sp == Split(d.f1, fl) IN
@@ -428,7 +442,7 @@ PublishSplit == Part = "split" =>
                           hzsort |-> HzSort(d.f1), hzid |-> (HasBuf(d.f1) /\ \E g \in {FAll(TRUE), [FAll(FALSE) EXCEPT !["int"] = TRUE], [FAll(FALSE) EXCEPT !["float"] = TRUE]} : ~WeakOrder(Range(d.f1), g))]))
 PublishReplay == Part = "replay" /\ pc = "done" =>
    PrintT("@@" \o ToJson([id |-> id, op |-> op, key |-> key, args |-> args, want |-> SetSeq(Want), impl |-> out,
-                          hz |-> SetSeq(IF Agrees THEN {} ELSE HzNow), dest |-> dest, fn |-> fn,
+                          hz |-> SetSeq(IF Agrees THEN {} ELSE HzNow), dest |-> dest, fn |-> fn, path |-> path,
                           alts |-> SetSeq(IF op = "call" /\ (HasBuf(d.f1) \/ (d.mode = "two" /\ HasBuf(d.f2)))
                                           THEN {ImplCall(d, args, g) : g \in AltFlags} \ {out} ELSE {})]))
 =============================================================================
